@@ -284,8 +284,8 @@ def main(chk, replay: dict | None = None) -> int:
     inputs = [c["input"] for c in load_corpus("C11")]
     for core in LAYOUTS:
         en = enum_two_step(core)
-        inputs += en if chk.thorough else rng.sample(en, 6)
-        inputs += [gen_history(rng, core, max_steps) for _ in range(60 if chk.thorough else 9)]
+        inputs += en if chk.thorough else rng.sample(en, 16)
+        inputs += [gen_history(rng, core, max_steps) for _ in range(80 if chk.thorough else 24)]
     cases = run_parallel(inputs)
     for c in cases:
         c["oracle_fail"] = oracle(c)
